@@ -96,7 +96,12 @@ class UxnResult:
         i, p = C.fresh("id", Id), C.fresh("key", KPath)
         results = SMap.fresh("results", Id, Val, strict=False, on_missing="raise")
         d0, v0 = results.dom, results.val
-        r = f(SUxnRec(i, p), results)
+        try:
+            r = f(SUxnRec(i, p), results)
+        except KeyError:
+            # the results map was read at an absent id: the property says a node that has not run reads as None
+            C.check(z3.BoolVal(False), "uxn_result.exceptional.C12.no_KeyError_for_a_node_that_has_not_run", {"C01", "C12", "C10"}, "post")
+            return "raise"
         C.check(term(r, Val) == VAL(d0, v0, i, p), "uxn_result.post.C01.value_after_key_path_or_None_if_absent", {"C01", "C02", "C12", "C10"}, "post")
         C.check(z3.And(results.dom == d0, results.val == v0), "uxn_result.frame.pure", {"C15"}, "frame")
         return "return"
